@@ -83,6 +83,13 @@ module N =
     | Lt -> true
     | _ -> false
 
+  (** val min : coq_N -> coq_N -> coq_N **)
+
+  let min n n' =
+    match compare n n' with
+    | Gt -> n'
+    | _ -> n
+
   (** val pow : coq_N -> coq_N -> coq_N **)
 
   let pow n = function
